@@ -243,7 +243,7 @@ func (b *expandBody) expandBlocks(schema *hcl.BodySchema, rawBlocks hcl.Blocks, 
 				// case it contains expressions that refer to our inherited
 				// iterators, or nested "dynamic" blocks.
 				expandedBlock := *rawBlock // shallow copy
-				expandedBlock.Body = b.expandChild(rawBlock.Body, b.iteration, nil)
+				expandedBlock.Body = b.expandChild(rawBlock.Body, b.iteration, b.valueMarks)
 				blocks = append(blocks, &expandedBlock)
 			}
 		}
